@@ -4,6 +4,7 @@ package main
 // time, runtime, hashing, errors, fmt and a few assembly-backed helpers.
 
 import (
+	"crypto/sha256"
 	"bytes"
 	"encoding/hex"
 	"fmt"
@@ -269,6 +270,14 @@ func init() {
 	// vfHashFixed: one fixed placement - the n-th distinct hashed input gets
 	// digest prefix n (W bits). A stated cut for harnesses whose property does
 	// not depend on where the digests fall.
+	// vfHashReal: concrete inputs get their real SHA-256 digest (for code that
+	// depends on real pre-images, e.g. kbucket's prefix table).
+	vfNatives["vfHashReal"] = func(fr *frame, a []value) value { fr.i.side["hashreal"] = true; return nil }
+	// vfRandSeed: selects the deterministic crypto/rand byte stream
+	vfNatives["vfRandSeed"] = func(fr *frame, a []value) value {
+		fr.i.side["cryptorand"] = uint64(asInt64(a[0])) * 0x9e3779b97f4a7c15
+		return nil
+	}
 	vfNatives["vfHashFixed"] = func(fr *frame, a []value) value {
 		fr.i.side["hashconcrete"] = true
 		fr.i.side["hashfixed"] = true
@@ -787,6 +796,60 @@ func init() {
 	natives["fmt.Errorf"] = func(fr *frame, a []value) value {
 		return fr.i.errorf(fr, a[0].(string), a[1].([]value))
 	}
+	// fmt.Sscanf on concrete input into pointers to integers / strings: host call
+	natives["fmt.Sscanf"] = func(fr *frame, a []value) value {
+		in, format := a[0].(string), a[1].(string)
+		args := a[2].([]value)
+		host := make([]any, len(args))
+		for k, x := range args {
+			p, ok := x.(iface).v.(*value)
+			if !ok {
+				panic(engineFault{"fmt.Sscanf: unsupported argument"})
+			}
+			switch (*p).(type) {
+			case int:
+				host[k] = new(int)
+			case int64:
+				host[k] = new(int64)
+			case int32:
+				host[k] = new(int32)
+			case uint64:
+				host[k] = new(uint64)
+			case uint32:
+				host[k] = new(uint32)
+			case uint:
+				host[k] = new(uint)
+			case string:
+				host[k] = new(string)
+			default:
+				panic(engineFault{fmt.Sprintf("fmt.Sscanf: unsupported pointee %T", *p)})
+			}
+		}
+		n, err := fmt.Sscanf(in, format, host...)
+		for k, x := range args {
+			p := x.(iface).v.(*value)
+			switch h := host[k].(type) {
+			case *int:
+				*p = *h
+			case *int64:
+				*p = *h
+			case *int32:
+				*p = *h
+			case *uint64:
+				*p = *h
+			case *uint32:
+				*p = *h
+			case *uint:
+				*p = *h
+			case *string:
+				*p = *h
+			}
+		}
+		if err != nil {
+			return tuple{n, fr.i.mkError(err.Error())}
+		}
+		return tuple{n, iface{}}
+	}
 	natives["fmt.Printf"] = func(fr *frame, a []value) value { return tuple{0, iface{}} }
 	natives["fmt.Println"] = natives["fmt.Printf"]
 	natives["fmt.Print"] = natives["fmt.Printf"]
@@ -958,6 +1021,17 @@ func init() {
 	}
 	natives["github.com/google/uuid.NewString"] = func(fr *frame, a []value) value {
 		return "01020304-0506-0708-090a-0b0c0d0e0f10"
+	}
+	// crypto/rand: a fixed deterministic byte stream (stated in the evidence)
+	natives["crypto/rand.Read"] = func(fr *frame, a []value) value {
+		b := a[0].([]value)
+		st, _ := fr.i.side["cryptorand"].(uint64)
+		for k := range b {
+			st = st*6364136223846793005 + 1442695040888963407
+			b[k] = uint8(st >> 56)
+		}
+		fr.i.side["cryptorand"] = st
+		return tuple{len(b), iface{}}
 	}
 	natives["math/rand.Shuffle"] = noop // identity permutation (stated in the evidence)
 	natives["math/rand.Intn"] = func(fr *frame, a []value) value { return 0 }
@@ -1187,6 +1261,15 @@ func (i *interpreter) hashStub(in []value) []value {
 		if out, ok := i.hashMemo[key]; ok {
 			return append([]value{}, out...)
 		}
+	}
+	if _, ok := i.side["hashreal"]; ok && concrete {
+		sum := sha256.Sum256([]byte(key))
+		out := make([]value, 32)
+		for k := range out {
+			out[k] = sum[k]
+		}
+		i.hashMemo[key] = out
+		return append([]value{}, out...)
 	}
 	var entries []hashEntry
 	if e, ok := i.side["hashes"]; ok {
